@@ -193,23 +193,6 @@ theorem derive_builder (H) (σ : State) (_wf : WF σ) (src : Nat) (t : Tag) (ht'
     simp only [c1, c2, decide_true, decide_false, Bool.or_true, Bool.or_false, Bool.false_or, Bool.true_or, if_true, if_false,
       Bool.false_eq_true, Bool.or_self]
 
-theorem Cell_to_builder_eq (H) (σ : State) (wf : WF σ) (self : Nat) (h : σ.has self .cell = true) :
-    Py.Heap.result σ (Cell_to_builder H σ self) = step H σ (.derive self .builder) := by
-  rw [derive_builder H σ wf self .cell (Or.inl rfl) h, ← builder_core H σ wf self .cell (Or.inl rfl) h]
-  simp only [Cell_to_builder]
-  by_cases c0 : ((σ.obj self).kind != -1) = true
-  · simp [c0, Py.Heap.result]
-  · simp only [c0]; rfl
-
-theorem Slice_to_builder_eq (H) (σ : State) (wf : WF σ) (self : Nat) (h : σ.has self .slice = true) :
-    Py.Heap.result σ (Slice_to_builder H σ self) = step H σ (.derive self .builder) := by
-  rw [derive_builder H σ wf self .slice (Or.inr rfl) h, ← builder_core H σ wf self .slice (Or.inr rfl) h]
-  simp only [Slice_to_builder]
-  by_cases c0 : (σ.obj self).kind = -1
-  · simp only [c0]; rfl
-  · have : ((σ.obj self).kind != -1) = true := by simpa using c0
-    simp [c0, this, Py.Heap.result]
-
 /-! ## loads and stores (session 5): the regenerated mutating methods are the model's own transitions -/
 
 /-- `Builder.store_ref(ref)` = the model's `storeRef`: raises exactly when the builder's list already has 4 entries, otherwise the
@@ -239,5 +222,301 @@ theorem Slice_load_ref_eq (H) (σ : State) (self : Nat) (h : σ.has self .slice 
       have := congrArg List.head? hd
       simpa [List.head?_drop] using this
     simp [this, Py.Heap.result]
+
+/-! ## bit-moving loads and stores (session 5, heapsrc2) -/
+
+/-- `Builder.store_bits(bits)` = the model's `storeBits` with the items of `bits`: raises exactly when the builder's array would exceed
+1023 bits, otherwise the builder's OWN bit container is extended in place; the argument is only read. -/
+theorem Builder_store_bits_eq (H) (σ : State) (self : Nat) (bs : Bits) (h : σ.has self .builder = true) :
+    Py.Heap.resultUnit σ (Builder_store_bits H σ self bs) = step H σ (.storeBits self bs) := by
+  simp only [step, h, if_true, Builder_store_bits, Py.Heap.extendBits?, State.bitsOf]
+  by_cases hl : (σ.bitBuf (σ.obj self).bitsId).length + bs.length > 1023
+  · simp [hl, Py.Heap.resultUnit]
+  · simp [hl, Py.Heap.resultUnit]
+
+/-- `store_bits(array)` with an array object the caller holds = the model's `storeFrom · <ubits>` -/
+theorem Builder_store_bits_array_eq (H) (σ : State) (self src : Nat) (h : σ.has self .builder = true) (hs : σ.has src .ubits = true) :
+    Py.Heap.resultUnit σ (Builder_store_bits H σ self (σ.bitsOf src)) = step H σ (.storeFrom self src) := by
+  simp only [step, h, hs, if_true, Builder_store_bits, Py.Heap.extendBits?, State.bitsOf]
+  by_cases hl : (σ.bitBuf (σ.obj self).bitsId).length + (σ.bitBuf (σ.obj src).bitsId).length > 1023
+  · simp [hl, Py.Heap.resultUnit]
+  · simp [hl, Py.Heap.resultUnit]
+
+/-- `Builder.store_uint(value, size)`: `int2ba` raises or yields the encoding `e`; then it is the model's `storeBits · e`. -/
+theorem Builder_store_uint_eq (H) (σ : State) (self : Nat) (v : Int) (n : Nat) (h : σ.has self .builder = true) :
+    Py.Heap.resultUnit σ (Builder_store_uint H σ self v n) =
+      match Py.Heap.int2baU? v n with
+      | none => (σ, .err)
+      | some e => step H σ (.storeBits self e) := by
+  cases he : Py.Heap.int2baU? v n with
+  | none => simp [Builder_store_uint, he, Py.Heap.resultUnit]
+  | some e =>
+    show _ = step H σ (.storeBits self e)
+    rw [← Builder_store_bits_eq H σ self e h]
+    simp only [Builder_store_uint, he, Option.bind_some, Builder_store_bits]
+
+/-- `Builder.store_cell(cell)` = the model's `storeFrom`: references overflow checked first, then the bits overflow; then the builder's
+OWN array gets the cell's bits and its OWN list the ELEMENTS of the cell's list - neither of the cell's containers is kept. -/
+theorem Builder_store_cell_core (H) (σ : State) (self cell : Nat) (h : σ.has self .builder = true) (hc : σ.has cell .cell = true)
+    (ho : (σ.obj self).off = 0) (hco : (σ.obj cell).off = 0) :
+    Py.Heap.resultUnit σ (Builder_store_cell H σ self cell) = step H σ (.storeFrom self cell) := by
+  obtain ⟨hci, hct⟩ := has_lt hc
+  have hu : σ.has cell .ubits = false := by simp [State.has, hct]
+  simp only [step, h, hc, hu, if_true, Bool.true_or, Bool.false_eq_true, if_false, Builder_store_cell, Builder_store_bits,
+    Py.Heap.extendBits?, Py.Heap.extendRefs, State.bitsOf, State.refsOf, ho, hco, List.drop_zero, decide_eq_true_eq]
+  by_cases h1 : (σ.refBuf (σ.obj self).refsId).length + (σ.refBuf (σ.obj cell).refsId).length > 4
+  · simp [h1, Py.Heap.resultUnit]
+  · by_cases h2 : (σ.bitBuf (σ.obj self).bitsId).length + (σ.bitBuf (σ.obj cell).bitsId).length > 1023
+    · simp [h1, h2, Py.Heap.resultUnit]
+    · simp [h1, h2, Py.Heap.resultUnit, State.setB, State.setR]
+
+theorem Builder_store_cell_eq (H) (σ : State) (wf : WF σ) (self cell : Nat) (h : σ.has self .builder = true) (hc : σ.has cell .cell = true) :
+    Py.Heap.resultUnit σ (Builder_store_cell H σ self cell) = step H σ (.storeFrom self cell) := by
+  obtain ⟨hi, ht⟩ := has_lt h
+  obtain ⟨hci, hct⟩ := has_lt hc
+  exact Builder_store_cell_core H σ self cell h hc (wf.off0 self hi (by rw [ht]; decide)) (wf.off0 cell hci (by rw [hct]; decide))
+
+/-- `store_cell` returns its receiver -/
+theorem Builder_store_cell_ret (H) (σ σ' : State) (b c r : Nat) (h : Builder_store_cell H σ b c = some (σ', r)) : r = b := by
+  simp only [Builder_store_cell, Builder_store_bits] at h
+  split at h
+  · cases h
+  · cases he : Py.Heap.extendBits? σ (σ.obj b).bitsId (σ.bitBuf (σ.obj c).bitsId) with
+    | none => simp [he] at h
+    | some s => simp [he] at h; exact h.2.symm
+
+/-- `Slice.preload_bits(n)` = the model's `peekBits`: a NEW array with the first `n` bits; the slice is untouched. -/
+theorem Slice_preload_bits_eq (H) (σ : State) (self n : Nat) (h : σ.has self .slice = true) :
+    Py.Heap.resultBits σ (Slice_preload_bits H σ self n) = step H σ (.peekBits self n) := by
+  simp only [step, h, if_true, Slice_preload_bits, Py.Heap.sliceBits, Py.Heap.resultBits, State.bitsOf, State.allocB, State.push]
+  rfl
+
+/-- `Slice.skip_bits(n)` = the model's `dropBits · n false`: raises (nothing deleted) when fewer than `n` bits remain, otherwise the
+first `n` bits are deleted from the slice's OWN array in place. -/
+theorem Slice_skip_bits_eq (H) (σ : State) (self n : Nat) (h : σ.has self .slice = true) :
+    Py.Heap.resultDrop σ ((σ.bitsOf self).take n) (Slice_skip_bits H σ self n) = step H σ (.dropBits self n false) := by
+  simp only [step, h, if_true, Slice_skip_bits, Py.Heap.delBits?, State.bitsOf]
+  by_cases hl : n > (σ.bitBuf (σ.obj self).bitsId).length
+  · have : (σ.bitBuf (σ.obj self).bitsId).length < n := hl
+    simp [hl, this, Py.Heap.resultDrop]
+  · have : ¬ (σ.bitBuf (σ.obj self).bitsId).length < n := hl
+    simp [hl, this, Py.Heap.resultDrop]
+
+/-- `Slice.load_uint(0)` raises (`ba2int` of an empty array) -/
+theorem Slice_load_uint_zero (H) (σ : State) (self : Nat) : Slice_load_uint H σ self 0 = none := by
+  simp [Slice_load_uint, Slice_preload_uint, Py.Heap.ba2intU?]
+
+/-- `Slice.load_uint(n)`, `n ≥ 1` = the model's `dropBits · n false`; the int returned is `ba2int` of the consumed bits. -/
+theorem Slice_load_uint_eq (H) (σ : State) (self n : Nat) (hn : 1 ≤ n) (h : σ.has self .slice = true) :
+    Py.Heap.resultDrop σ ((σ.bitsOf self).take n) (Slice_load_uint H σ self n) = step H σ (.dropBits self n false) ∧
+    ∀ σ' v, Slice_load_uint H σ self n = some (σ', v) → Py.Heap.ba2intU? ((σ.bitsOf self).take n) = some v := by
+  constructor
+  · simp only [step, h, if_true, Slice_load_uint, Slice_preload_uint, Py.Heap.delBits?, Py.Heap.ba2intU?, State.bitsOf]
+    by_cases hl : n > (σ.bitBuf (σ.obj self).bitsId).length
+    · have h2 : (σ.bitBuf (σ.obj self).bitsId).length < n := hl
+      by_cases he : (List.take n (σ.bitBuf (σ.obj self).bitsId)).isEmpty = true <;> simp [hl, h2, he, Py.Heap.resultDrop]
+    · have h2 : ¬ (σ.bitBuf (σ.obj self).bitsId).length < n := hl
+      have he : (List.take n (σ.bitBuf (σ.obj self).bitsId)).isEmpty = false := by
+        cases hb : σ.bitBuf (σ.obj self).bitsId with
+        | nil => simp [hb] at hl; omega
+        | cons b bs => cases n with
+          | zero => omega
+          | succ m => simp
+      simp [hl, h2, he, Py.Heap.resultDrop]
+  · intro σ' v hv
+    simp only [Slice_load_uint, Slice_preload_uint, State.bitsOf] at hv ⊢
+    cases hb : Py.Heap.ba2intU? (List.take n (σ.bitBuf (σ.obj self).bitsId)) with
+    | none => simp [hb] at hv
+    | some w =>
+      simp only [hb, Option.bind_some] at hv
+      cases hd : Py.Heap.delBits? σ (σ.obj self).bitsId n with
+      | none => simp [hd] at hv
+      | some σ2 => simp only [hd, Option.bind_some, Option.some.injEq, Prod.mk.injEq] at hv; rw [hv.2]
+
+/-- `Slice.load_bits(n)` = the model's `dropBits · n true`: a NEW array with the first `n` bits is returned and the slice's OWN array
+loses them in place; raises (nothing changed) when fewer than `n` bits remain. -/
+theorem Slice_load_bits_eq (H) (σ : State) (wf : WF σ) (self n : Nat) (h : σ.has self .slice = true) :
+    Py.Heap.resultBits σ (Slice_load_bits H σ self n) = step H σ (.dropBits self n true) := by
+  obtain ⟨hi, ht⟩ := has_lt h
+  have hB : (σ.obj self).bitsId ≠ σ.nBit := Nat.ne_of_lt (wf.idB self hi (by rw [ht]; rfl))
+  simp only [step, h, if_true, Slice_load_bits, Slice_preload_bits, Py.Heap.sliceBits, Py.Heap.delBits?, State.bitsOf, State.allocB,
+    Option.bind_some, hB, if_false]
+  by_cases hl : n > (σ.bitBuf (σ.obj self).bitsId).length
+  · have h2 : (σ.bitBuf (σ.obj self).bitsId).length < n := hl
+    simp [hl, h2, Py.Heap.resultBits]
+  · have h2 : ¬ (σ.bitBuf (σ.obj self).bitsId).length < n := hl
+    simp only [hl, h2, if_false, Option.bind_some, Py.Heap.resultBits, State.setB, State.push, State.allocB]
+    refine Prod.ext (state_ext ?_ rfl rfl rfl rfl rfl) rfl
+    funext j
+    by_cases hj : j = σ.nBit
+    · subst hj; simp [Ne.symm hB]
+    · by_cases hj2 : j = (σ.obj self).bitsId
+      · subst hj2; simp [hB]
+      · simp [hj, hj2]
+
+/-- the loop of `store_slice`: `n` rounds of `self.store_ref(src.refs[i])` from index `i`, when the builder's list `R` is not the
+source list `S`, there is room for `n` more entries and the source list has them: the builder's list gets exactly the `n` ELEMENTS
+`S[i], .., S[i+n-1]` appended in place; nothing else changes. -/
+theorem store_loop (H) (self src : Nat) (n : Nat) : ∀ (i : Nat) (τ : State),
+    (τ.obj self).refsId ≠ (τ.obj src).refsId →
+    (τ.refBuf (τ.obj self).refsId).length + n ≤ 4 → (n = 0 ∨ i + n ≤ (τ.refBuf (τ.obj src).refsId).length) →
+    Py.Heap.forFuel n i τ (fun i τ => (Py.Heap.refAt? τ (τ.obj src).refsId i).bind fun c =>
+        (Builder_store_ref H τ self c).bind fun r => some r.1) =
+      some (τ.setR (τ.obj self).refsId (τ.refBuf (τ.obj self).refsId ++ ((τ.refBuf (τ.obj src).refsId).drop i).take n)) := by
+  induction n with
+  | zero =>
+    intro i τ _ _ _
+    simp only [Py.Heap.forFuel, List.take_zero, List.append_nil]
+    congr 1
+    exact state_ext (by funext j; by_cases hj : j = (τ.obj self).refsId <;> simp [State.setR, hj]) rfl
+      (by funext j; by_cases hj : j = (τ.obj self).refsId <;> simp [State.setR, hj]) rfl rfl rfl
+  | succ n ih =>
+    intro i τ hne hroom hlen
+    have hlen : i + (n + 1) ≤ (τ.refBuf (τ.obj src).refsId).length := by omega
+    have hi : i < (τ.refBuf (τ.obj src).refsId).length := by omega
+    have hget : (τ.refBuf (τ.obj src).refsId)[i]? = some (τ.refBuf (τ.obj src).refsId)[i] := List.getElem?_eq_getElem hi
+    have hroom' : ¬ (τ.refBuf (τ.obj self).refsId).length ≥ 4 := by omega
+    have hstep : ((Py.Heap.refAt? τ (τ.obj src).refsId i).bind fun c => (Builder_store_ref H τ self c).bind fun r => some r.1) =
+        some (τ.setR (τ.obj self).refsId (τ.refBuf (τ.obj self).refsId ++ [(τ.refBuf (τ.obj src).refsId)[i]])) := by
+      simp [Py.Heap.refAt?, hget, Builder_store_ref, hroom', Py.Heap.appendRef]
+    simp only [Py.Heap.forFuel]
+    rw [hstep, Option.bind_some]
+    have hne' : (τ.obj src).refsId ≠ (τ.obj self).refsId := Ne.symm hne
+    rw [ih (i + 1) _ (by simpa [State.setR] using hne) (by simp [State.setR]; omega) (Or.inr (by simp [State.setR, hne']; omega))]
+    congr 1
+    have hdrop : (τ.refBuf (τ.obj src).refsId).drop i = (τ.refBuf (τ.obj src).refsId)[i] :: (τ.refBuf (τ.obj src).refsId).drop (i + 1) :=
+      List.drop_eq_getElem_cons hi
+    have htk : List.take (n + 1) ((τ.refBuf (τ.obj src).refsId).drop i) =
+        (τ.refBuf (τ.obj src).refsId)[i] :: List.take n ((τ.refBuf (τ.obj src).refsId).drop (i + 1)) := by
+      rw [hdrop, List.take_succ_cons]
+    refine state_ext rfl rfl ?_ rfl rfl rfl
+    funext j
+    by_cases hj : j = (τ.obj self).refsId
+    · subst hj; simp [State.setR, hne', htk]
+    · simp [State.setR, hj]
+
+/-- `Builder.store_slice(s)` = the model's `storeFrom`: references overflow (against the REMAINING references `len(refs) - ref_offset`)
+checked first, then the bits overflow; then the builder's OWN array gets the slice's remaining bits and its OWN list the remaining
+ELEMENTS `refs[ref_offset:]` one by one - neither of the slice's containers is kept.  Needs: the builder's list is not the slice's
+list (`Sep`; in `to_builder` the builder is new) and `ref_offset ≤ len(refs)` (`load_ref` never moves past the end). -/
+theorem Builder_store_slice_core (H) (σ : State) (self src : Nat) (h : σ.has self .builder = true) (hs : σ.has src .slice = true)
+    (ho : (σ.obj self).off = 0) (hne : (σ.obj self).refsId ≠ (σ.obj src).refsId)
+    (hoff : (σ.obj src).off ≤ (σ.refBuf (σ.obj src).refsId).length ∨ (σ.refBuf (σ.obj self).refsId).length = 0) :
+    Py.Heap.resultUnit σ (Builder_store_slice H σ self src) = step H σ (.storeFrom self src) := by
+  obtain ⟨hsi, hst⟩ := has_lt hs
+  have hu : σ.has src .ubits = false := by simp [State.has, hst]
+  simp only [step, h, hs, hu, if_true, Bool.or_true, Bool.false_eq_true, if_false, State.bitsOf, State.refsOf, ho, List.drop_zero,
+    List.length_drop]
+  by_cases h1 : (σ.refBuf (σ.obj self).refsId).length + ((σ.refBuf (σ.obj src).refsId).length - (σ.obj src).off) > 4
+  · have h1' : (((σ.refBuf (σ.obj self).refsId).length : Nat) : Int) +
+        ((((σ.refBuf (σ.obj src).refsId).length : Nat) : Int) - (((σ.obj src).off : Nat) : Int)) > (4 : Int) := by omega
+    simp [Builder_store_slice, h1, h1', Py.Heap.resultUnit]
+  · have h1' : ¬ (((σ.refBuf (σ.obj self).refsId).length : Nat) : Int) +
+        ((((σ.refBuf (σ.obj src).refsId).length : Nat) : Int) - (((σ.obj src).off : Nat) : Int)) > (4 : Int) := by omega
+    by_cases h2 : (σ.bitBuf (σ.obj self).bitsId).length + (σ.bitBuf (σ.obj src).bitsId).length > 1023
+    · simp [Builder_store_slice, Builder_store_bits, Py.Heap.extendBits?, h1, h1', h2, Py.Heap.resultUnit]
+    · have hl := store_loop H self src ((σ.refBuf (σ.obj src).refsId).length - (σ.obj src).off) (σ.obj src).off
+        (σ.setB (σ.obj self).bitsId (σ.bitBuf (σ.obj self).bitsId ++ σ.bitBuf (σ.obj src).bitsId))
+        (by simpa [State.setB] using hne) (by simp [State.setB]; omega) (by simp [State.setB]; omega)
+      simp only [Builder_store_slice, Builder_store_bits, Py.Heap.extendBits?, h1, h1', h2, decide_false, Bool.false_eq_true, if_false,
+        Option.bind_some, Py.Heap.forRange]
+      simp only [State.setB] at hl ⊢
+      rw [hl]
+      simp only [Option.bind_some, Py.Heap.resultUnit, State.setR]
+      refine Prod.ext (state_ext rfl rfl ?_ rfl rfl rfl) rfl
+      funext j
+      by_cases hj : j = (σ.obj self).refsId
+      · simp [hj, List.take_of_length_le]
+      · simp [hj]
+
+theorem Builder_store_slice_eq (H) (σ : State) (wf : WF σ) (self src : Nat) (h : σ.has self .builder = true) (hs : σ.has src .slice = true)
+    (hne : (σ.obj self).refsId ≠ (σ.obj src).refsId) (hoff : (σ.obj src).off ≤ (σ.refBuf (σ.obj src).refsId).length) :
+    Py.Heap.resultUnit σ (Builder_store_slice H σ self src) = step H σ (.storeFrom self src) := by
+  obtain ⟨hi, ht⟩ := has_lt h
+  exact Builder_store_slice_core H σ self src h hs (wf.off0 self hi (by rw [ht]; decide)) hne (Or.inl hoff)
+
+/-- `store_slice` returns its receiver -/
+theorem Builder_store_slice_ret (H) (σ σ' : State) (b c r : Nat) (h : Builder_store_slice H σ b c = some (σ', r)) : r = b := by
+  simp only [Builder_store_slice, Builder_store_bits] at h
+  split at h
+  · cases h
+  · cases he : Py.Heap.extendBits? σ (σ.obj b).bitsId (σ.bitBuf (σ.obj c).bitsId) with
+    | none => simp [he] at h
+    | some s =>
+      simp only [he, Option.bind_some] at h
+      generalize Py.Heap.forRange _ _ _ _ = q at h
+      cases q with
+      | none => simp at h
+      | some t => simp at h; exact h.2.symm
+
+/-! ### `to_builder`: `Builder()` then the REGENERATED `store_cell` / `store_slice` is `derive · builder` -/
+
+/-- a regenerated receiver-returning store that equals the model's `storeFrom`, used as the primitive `storeFrom?` -/
+theorem bind_as_prim (H) (σ : State) (b c : Nat) (f : Option (State × Nat)) (hr : ∀ σ' r, f = some (σ', r) → r = b)
+    (he : Py.Heap.resultUnit σ f = step H σ (.storeFrom b c)) :
+    (f.bind fun r => some (r.1, r.2)) = (Py.Heap.storeFrom? H σ b c).bind fun r => some (r, b) := by
+  unfold Py.Heap.storeFrom?
+  rw [← he]
+  cases f with
+  | none => simp [Py.Heap.resultUnit]
+  | some p =>
+    obtain ⟨σ', r⟩ := p
+    have := hr σ' r rfl
+    subst this
+    simp [Py.Heap.resultUnit]
+
+theorem Cell_to_builder_eq (H) (σ : State) (wf : WF σ) (self : Nat) (h : σ.has self .cell = true) :
+    Py.Heap.result σ (Cell_to_builder H σ self) = step H σ (.derive self .builder) := by
+  rw [derive_builder H σ wf self .cell (Or.inl rfl) h, ← builder_core H σ wf self .cell (Or.inl rfl) h]
+  obtain ⟨hi, ht⟩ := has_lt h
+  have hne : self ≠ σ.nObj := Nat.ne_of_lt hi
+  have hb1 : (Py.Heap.newBuilder σ).1.has (Py.Heap.newBuilder σ).2 .builder = true := by
+    simp [Py.Heap.newBuilder, State.has, State.push, State.allocB, State.allocR]
+  have hc1 : (Py.Heap.newBuilder σ).1.has self .cell = true := by
+    simp [Py.Heap.newBuilder, State.has, State.push, State.allocB, State.allocR, hne, ht]; exact decide_eq_true (Nat.lt_succ_of_lt hi)
+  have core := Builder_store_cell_core H (Py.Heap.newBuilder σ).1 (Py.Heap.newBuilder σ).2 self hb1 hc1
+    (by simp [Py.Heap.newBuilder, State.push, State.allocB, State.allocR, ObjRec.blank])
+    (by simpa [Py.Heap.newBuilder, State.push, State.allocB, State.allocR, hne] using wf.off0 self hi (by rw [ht]; decide))
+  have prim := bind_as_prim H _ _ _ _ (fun σ' r => Builder_store_cell_ret H _ σ' _ _ r) core
+  simp only [Cell_to_builder]
+  by_cases c0 : ((σ.obj self).kind != -1) = true
+  · simp [c0, Py.Heap.result]
+  · simp only [c0]; exact congrArg (Py.Heap.result σ) prim
+
+theorem Slice_to_builder_eq (H) (σ : State) (wf : WF σ) (self : Nat) (h : σ.has self .slice = true) :
+    Py.Heap.result σ (Slice_to_builder H σ self) = step H σ (.derive self .builder) := by
+  rw [derive_builder H σ wf self .slice (Or.inr rfl) h, ← builder_core H σ wf self .slice (Or.inr rfl) h]
+  obtain ⟨hi, ht⟩ := has_lt h
+  have hne : self ≠ σ.nObj := Nat.ne_of_lt hi
+  have hR : (σ.obj self).refsId ≠ σ.nRef := Nat.ne_of_lt (wf.idR self hi (by rw [ht]; rfl))
+  have hb1 : (Py.Heap.newBuilder σ).1.has (Py.Heap.newBuilder σ).2 .builder = true := by
+    simp [Py.Heap.newBuilder, State.has, State.push, State.allocB, State.allocR]
+  have hc1 : (Py.Heap.newBuilder σ).1.has self .slice = true := by
+    simp [Py.Heap.newBuilder, State.has, State.push, State.allocB, State.allocR, hne, ht]; exact decide_eq_true (Nat.lt_succ_of_lt hi)
+  have core := Builder_store_slice_core H (Py.Heap.newBuilder σ).1 (Py.Heap.newBuilder σ).2 self hb1 hc1
+    (by simp [Py.Heap.newBuilder, State.push, State.allocB, State.allocR, ObjRec.blank])
+    (by simp [Py.Heap.newBuilder, State.push, State.allocB, State.allocR, hne]; exact Ne.symm hR)
+    (Or.inr (by simp [Py.Heap.newBuilder, State.push, State.allocB, State.allocR]))
+  have prim := bind_as_prim H _ _ _ _ (fun σ' r => Builder_store_slice_ret H _ σ' _ _ r) core
+  simp only [Slice_to_builder]
+  by_cases c0 : (σ.obj self).kind = -1
+  · simp only [c0]; exact congrArg (Py.Heap.result σ) prim
+  · have : ((σ.obj self).kind != -1) = true := by simpa using c0
+    simp [c0, this, Py.Heap.result]
+
+/-! ### `Cell.get_data_bytes`: the heap-touching helper of `Cell.__init__` reads only -/
+
+/-- `Cell.get_data_bytes()` pads a COPY: it allocates one scratch array and leaves every existing bit container (in particular the one
+`self.bits` points to - the caller's own array for `Cell(bits, refs)`), every list and every object record as they were. -/
+theorem Cell_get_data_bytes_frame (H) (σ : State) (self : Nat) :
+    ∃ σ' v, Cell_get_data_bytes H σ self = some (σ', v) ∧
+      (∀ j, j < σ.nBit → σ'.bitBuf j = σ.bitBuf j) ∧ σ'.refBuf = σ.refBuf ∧ σ'.obj = σ.obj ∧ σ'.nObj = σ.nObj ∧ σ'.nRef = σ.nRef ∧
+      σ'.nBit = σ.nBit + 1 ∧ v = bitsToBytes (σ'.bitBuf σ.nBit) := by
+  unfold Cell_get_data_bytes
+  refine ⟨_, _, rfl, ?_, ?_, ?_, ?_, ?_, ?_, ?_⟩ <;>
+    by_cases hc : (σ.bitBuf (σ.obj self).bitsId).length % 8 ≠ 0 <;>
+    simp [Py.Heap.copyBits, Py.Heap.appendBit, Py.Heap.fillBits, State.allocB, State.setB, hc]
+  all_goals (intro j hj; have : j ≠ σ.nBit := by omega
+             simp [this])
 
 end TonVerif.Proofs.SrcHeap
